@@ -65,6 +65,10 @@ class RuleResult:
         self.allowed.append({'key': f.key, 'reason': reason})
 
 
+# rules that could not analyse the tree (sa/check.py isolates each rule): (rule id, message)
+ANALYSIS_ERRORS: list[tuple[str, str]] = []
+
+
 def number_ordinals(findings: list[Finding]) -> None:
     seen: dict[str, int] = {}
     for f in findings:
@@ -131,6 +135,13 @@ def finish(prop: str, tier: str, results: list[RuleResult], explanation: str,
             else:
                 violations.append(f)
 
+    # a rule that met an idiom it cannot analyse makes a clean verdict untrustworthy (exit 2);
+    # violations found by the other rules are still reported (exit 1)
+    for rule, msg in ANALYSIS_ERRORS:
+        if not violations:
+            print(f'ANALYSIS-ERROR property={prop} [{rule}] {msg}')
+            return 2
+        print(f'NOTE property={prop} [{rule}] not analysed: {msg}')
     # a shrunken instance set makes a clean verdict untrustworthy (exit 2); when violations
     # were found anyway they are reported (exit 1) and the shortfall is only mentioned
     for name, minimum in baselines.items():
